@@ -59,6 +59,12 @@ def GClass.isMCXLike : GClass → Bool
   | .MCtrl g _ => g == "X"
   | _ => false
 
+/-- `_is_self_inverse(g)` of `qcircuitenhanced.py`: applying the gate twice is the identity -/
+def GClass.isSelfInverse : GClass → Bool
+  | .I | .X | .Y | .Z | .H | .Swap | .CX | .CZ | .CCX | .MCX _ | .Barrier | .Nop => true
+  | .MCtrl g _ => g == "I" || g == "X" || g == "Y" || g == "Z" || g == "H" || g == "SWAP"
+  | .S | .T | .P | .CP => false
+
 abbrev BState := List Bool
 
 def BState.flip (s : BState) (i : Nat) : BState := s.modify i (fun b => !b)
